@@ -6,45 +6,45 @@ hooks_commit = "d80d512"
 
 CHECKS = {
  "C01": ("model_checking", "explicit-state reference model checker + bounded-exhaustive formula/network enumeration",
-   "Every closed formula up to a node bound (plus template families: duplicates, pairs, shared operands, deep quantifier nests up to depth 10; networks with unusual names / shapes; closed-form hybrid formulae on a set with a 2^17-node BDD) on every network of a hand-written family and of the all-2-variable-network grammar is evaluated by the real entry points and by an independent explicit-state HCTL model checker over every colour's full transition system; tables are compared on every state x valid colour. Exhaustive within the stated node/network bounds; nothing is sampled.", "§3 C01"),
+   "Every closed formula up to a node bound (plus template families: duplicates, pairs, shared operands, deep quantifier nests up to depth 10; networks with unusual names / shapes; closed-form hybrid formulae on a set with a 2^17-node BDD) on every network of a hand-written family and of the all-2-variable-network grammar is evaluated by the real entry points and by an independent explicit-state HCTL model checker over every colour's full transition system; tables are compared on every state x valid colour. Exhaustive within the stated node/network bounds; nothing is sampled. Rounds 10-11 added: batches of 40/100 formulae with tied heights through the four multi entry points, three networks built programmatically in a non-lexicographic declaration order, two-operator nests and pattern-with-condition families.", "§3 C01"),
  "C02": ("model_checking", "explicit-state reference model checker over extended formulae x context-set families",
-   "All extended formulae (wild-cards, domains on bind/exists/forall, nested and repeated) up to a node bound x deterministic families of context sets (empty, full, colour-dependent, empty for some colours, colour-disjoint, singletons), on synthetic wide models (more than 2^53 state x colour pairs) the three README equivalences and three closed forms for full / empty / all-but-one-state / all-but-one-pair / single-state domains; compared point-wise with the explicit-state oracle implementing the documented meaning.", "§3 C02"),
+   "All extended formulae (wild-cards, domains on bind/exists/forall, nested and repeated) up to a node bound x deterministic families of context sets (empty, full, colour-dependent, empty for some colours, colour-disjoint, singletons), on synthetic wide models (more than 2^53 state x colour pairs) the three README equivalences and three closed forms for full / empty / all-but-one-state / all-but-one-pair / single-state domains; compared point-wise with the explicit-state oracle implementing the documented meaning. Also: every formula in the long quantifier spellings, and the context sets loaded from a bundle with decoy entries stored before / after the real ones.", "§3 C02"),
  "C03": ("model_checking", "bounded-exhaustive enumeration with unit-set / support oracle on constrained networks",
    "On every network of the family whose regulation constraints exclude parametrisations, every enumerated formula's raw result must be a subset of the unit set and independent of auxiliary BDD variables, and sanitised results must not exceed the unit set's cardinalities. The unit set itself is validated against independently enumerated valid interpretations.", "§3 C03"),
  "C04": ("model_checking", "stateright BFS over the real EvalContext driven by the real eval_node (all batches x all orders up to a bound)",
-   "Explicit-state exploration of the only history-dependent state of the library (the evaluation cache): every multiset of formulae from a collision alphabet up to a batch length, every evaluation order (incl. repetition patterns such as [A, A, B, B] up to length 5/6), real eval_node as transition function, states de-duplicated by a digest of the real context; every result compared with alone / sharing-disabled / oracle, and every ordered list replayed through the public batch entry points.", "§3 C04"),
+   "Explicit-state exploration of the only history-dependent state of the library (the evaluation cache): every multiset of formulae from a collision alphabet up to a batch length, every evaluation order (incl. repetition patterns such as [A, A, B, B] up to length 5/6), real eval_node as transition function, states de-duplicated by a digest of the real context; every result compared with alone / sharing-disabled / oracle, and every ordered list replayed through the public batch entry points. Also batches of 48/96 plain and extended formulae (beyond the 32-element threshold of sort_unstable).", "§3 C04"),
  "C05": ("exploration", "bounded-exhaustive input enumeration against a reference tokenizer + recursive-descent parser",
-   "All token sequences up to length T and all character strings up to length K over sharp alphabets, plus deterministic long inputs, through both parsers and an independent reference front end written from the documented grammar; accept/reject, token lists and trees must agree.", "§3 C05"),
+   "All token sequences up to length T and all character strings up to length K over sharp alphabets, plus deterministic long inputs, through both parsers and an independent reference front end written from the documented grammar; accept/reject, token lists and trees must agree. Also sequences of hybrid-header pieces (space-separated and glued), and the parse-and-preprocess wrappers held against the same grammar.", "§3 C05"),
  "C06": ("exploration", "bounded-exhaustive tree enumeration with independent renderer and round trip",
-   "All trees up to a node bound assembled with the public constructors, all trees the parser returns for short token sequences, trees produced by preprocessing and deep chains: stored text/height at every node vs an independent renderer, print->parse round trip.", "§3 C06"),
+   "All trees up to a node bound assembled with the public constructors, all trees the parser returns for short token sequences, trees produced by preprocessing and deep chains: stored text/height at every node vs an independent renderer, print->parse round trip. Also the public random constructor new_random_boolean on an enumerated grid of (levels, seed).", "§3 C06"),
  "C07": ("exploration", "bounded-exhaustive tree enumeration against an independent scope checker and de-Bruijn normaliser",
-   "All parsed trees up to a node bound (preprocessed against the extended symbolic context of a parametrised network; every foreign symbolic variable name tried as a proposition) over variable names that collide with the internal ones in every order, with jumps everywhere: accept iff well-scoped, output exactly the depth-named alpha-variant, idempotent.", "§3 C07"),
+   "All parsed trees up to a node bound (preprocessed against the extended symbolic context of a parametrised network; every foreign symbolic variable name tried as a proposition) over variable names that collide with the internal ones in every order, with jumps everywhere: accept iff well-scoped, output exactly the depth-named alpha-variant, idempotent. Also a domain-focused alphabet (quantifiers with and without %d%) and six contexts of networks built programmatically in non-lexicographic declaration order.", "§3 C07"),
  "C08": ("exploration", "bounded-exhaustive enumeration of formulae x meaning-preserving rewrites, differential on the real entry points",
    "For every formula up to a node bound (and the template families) every rewrite of finite families (all scope-respecting renamings into names that collide with the internal ones, whitespace patterns at every token boundary, redundant parentheses at every sub-formula, long/short spellings, constant spellings) is evaluated and must give the same set as the canonical text.", "§3 C08"),
  "C09": ("exploration", "bounded-exhaustive enumeration of sub-trees / formula lists against an independent alpha-equivalence decision and occurrence counter",
-   "Every sub-tree of every preprocessed formula up to a node bound: canonical-form classes must coincide with alpha-equivalence classes (partition check = all pairs, plus explicit pairwise traversal), renaming total/injective/consistent, idempotence; duplicate marking of all single formulae and all lists <= 3 over a pool with jump/domain shapes vs an independent occurrence count. Uses the verif-hooks re-export of the private canonization module.", "§3 C09"),
+   "Every sub-tree of every preprocessed formula up to a node bound: canonical-form classes must coincide with alpha-equivalence classes (partition check = all pairs, plus explicit pairwise traversal), renaming total/injective/consistent, idempotence; duplicate marking of all single formulae and all lists <= 3 over a pool with jump/domain shapes vs an independent occurrence count. Uses the verif-hooks re-export of the private canonization module. Also nests of 13..33 quantifiers (canonical names var12 and beyond).", "§3 C09"),
  "C10": ("model_checking", "bounded-exhaustive enumeration of substitution cases (formula x antichain of closed sub-formulae), differential on the real entry points",
    "Every formula up to a node bound / template x every non-empty antichain (<= 3) of closed proper sub-formula occurrences replaced by wild-cards bound to the raw result of the sub-formula; the extended evaluation must equal the plain one (BDD equality); identity cases through all extended entry points with an empty context; bundled benchmark models in isolated child processes with wall limits.", "§3 C10"),
  "C11": ("model_checking", "exhaustive enumeration of law instances: every coloured set of tiny networks as wild-card argument; declared argument family on bundled models",
-   "44 temporal laws (each side evaluated alone and both sides as one batch; every one-argument law on all 256 state sets of 128/512 three-variable menu networks) + 3 graph-library laws instantiated with EVERY coloured state set (and all pairs where feasible) of tiny networks, anchored by the explicit-state oracle, and with a declared finite argument family on bundled models (up to 69 variables / 65 536 colours); both sides are evaluated by the tool and compared as sets.", "§3 C11"),
+   "44 temporal laws (each side evaluated alone and both sides as one batch; every one-argument law on all 256 state sets of 128/512 three-variable menu networks) + 3 graph-library laws instantiated with EVERY coloured state set (and all pairs where feasible) of tiny networks, anchored by the explicit-state oracle, and with a declared finite argument family on bundled models (up to 69 variables / 65 536 colours); both sides are evaluated by the tool and compared as sets. Also every duality read from the other side (a negation directly above each temporal operator) and excluded middle for the until operators.", "§3 C11"),
  "C12": ("model_checking", "explicit-state reference model checker + differential (shortcut vs pattern-defeating twin) over all small contexts",
    "Every one-hole context up to a node bound x the two shortcut patterns, logically identical twins that defeat the matcher, and near-miss families, on the core networks (also colour-restricted graphs and networks with multi-stability inside one colour) and label families: shortcut == twin as sets, everything == explicit-state oracle, inside the unit set.", "§3 C12"),
  "C13": ("model_checking", "explicit-state reference model checker on all formulae containing EW/AW",
    "All formulae up to a node bound (both literal constants in the alphabet) that contain EW or AW on the core networks, compared point-wise with the oracle's weak-until definitions.", "§3 C13"),
  "C15": ("model_checking", "bounded-exhaustive enumeration of formulae x spare-variable counts with explicit-state anchor",
-   "Every formula up to a node bound / template on graphs with k = d, d+1, d+3 spare variable sets: sanitised == raw point-wise == oracle; canonical variable set; subset of and usable with SymbolicAsyncGraph::new; BDD-identical across k; extended entry points with context sets inside / outside the valid colours; two-network histories; wide models (> 2^53 pairs) against lib-param-bn's transfer.", "§3 C15"),
+   "Every formula up to a node bound / template on graphs with k = d, d+1, d+3 spare variable sets: sanitised == raw point-wise == oracle; canonical variable set; subset of and usable with SymbolicAsyncGraph::new; BDD-identical across k; extended entry points with context sets inside / outside the valid colours; two-network histories; wide models (> 2^53 pairs) against lib-param-bn's transfer. Also two-operator nests (every binary over every unary operator, constants included) and programmatically built networks.", "§3 C15"),
  "C16": ("exploration", "bounded-exhaustive enumeration of archive round trips (network x format x k x label->set map x formula list)",
-   "Every combination of a declared finite family (including histories of the target path: fresh, an earlier archive, a non-zip file, an empty file) is written with build_result_archive, unzipped independently, the archived model re-parsed, the bundle reloaded and every set compared point-wise and as BDD; reloaded sets are used as wild-card/domain context; analysis archives: entry i <-> line i.", "§3 C16"),
+   "Every combination of a declared finite family (including histories of the target path: fresh, an earlier archive, a non-zip file, an empty file) is written with build_result_archive, unzipped independently, the archived model re-parsed, the bundle reloaded and every set compared point-wise and as BDD; reloaded sets are used as wild-card/domain context; analysis archives: entry i <-> line i. Also: histories of the target path with a longer earlier archive / file, 70-label and metadata-like label maps, build_initial_archive, and the analysis run through the tool under every print option.", "§3 C16"),
  "C17": ("exploration", "bounded-exhaustive enumeration of CLI configurations executed on the binary built from the working tree, compared with the library",
-   "All combinations of model format x formula-file layout x print option x -o x -e x formula lists on small networks: stdout blocks, counts, exhaustive listings and archived BDDs are compared with the library's results; mismatched context archives and 20 failure configurations must give a message and no crash.", "§3 C17"),
+   "All combinations of model format x formula-file layout x print option x -o x -e x formula lists on small networks: stdout blocks, counts, exhaustive listings and archived BDDs are compared with the library's results; mismatched context archives and 20 failure configurations must give a message and no crash. Also formula files with 40 lines of tied heights and output paths that already hold a longer archive.", "§3 C17"),
  "C18": ("model_checking", "bounded-exhaustive differential: unsafe_ex vs standard evaluation on the loop-insensitive fragment / steady-state-free networks",
-   "All formulae of the loop-insensitive fragment up to a node bound on every core network, and all formulae over all operators on the networks whose independently computed transition systems have no steady state in any colour; raw results must be identical; plus two-network histories (ordered pairs of networks with the same symbolic encoding evaluated one after the other on one fresh OS thread).", "§3 C18"),
+   "All formulae of the loop-insensitive fragment up to a node bound on every core network, and all formulae over all operators on the networks whose independently computed transition systems have no steady state in any colour; raw results must be identical; plus two-network histories (ordered pairs of networks with the same symbolic encoding evaluated one after the other on one fresh OS thread). Also the pattern-with-condition family (!{x}: AG EF ({x} & PHI) and variants for 13 conditions).", "§3 C18"),
  "C20": ("model_checking", "exhaustive enumeration of (formula, colour) pairs: parametrised result sliced at each colour vs evaluation on the instantiated network",
    "Every formula up to a node bound / template x EVERY valid colour of every multi-colour core network: states of the parametrised result at the colour (also extended formulae with colour-dependent context sets sliced per colour) == model_check_formula on pick_witness(colour) (== oracle, which evaluates colours in isolation). Bundled: partially erased myeloid (all 2 180 colours), sub-lattices of 64k-colour models in the thorough tier.", "§3 C20"),
  "C14": ("exploration", "bounded-exhaustive input enumeration through every string entry point under catch_unwind with a reference accept/reject oracle",
-   "All short strings and token sequences, all label subsets for all small extended formulae, deep inputs, all trees up to a node bound over a binder-focused alphabet (ill-scoped ones must be rejected); each through 21 string entry points on graphs with 0..3 spare variable sets; Ok/Err must match the reference parser + scope rules + label presence + k >= depth; a panic is always a violation.", "§3 C14"),
+   "All short strings and token sequences, all label subsets for all small extended formulae, deep inputs, all trees up to a node bound over a binder-focused alphabet (ill-scoped ones must be rejected); each through 21 string entry points on graphs with 0..3 spare variable sets; Ok/Err must match the reference parser + scope rules + label presence + k >= depth; a panic is always a violation. The binder-tree family has quantifiers with a domain as well.", "§3 C14"),
  "C19": ("exploration", "bounded-exhaustive enumeration of aeon networks through the converter binary with an independent truth-table oracle",
-   "Every network of a converter grammar (1..3 variables, implicit functions, shared uninterpreted symbols of arity 0..3 (every argument list with repetitions), explicit expressions, constrained/unconstrained regulations, name-clash sub-family) is run through the convert-aeon-to-bnet binary; for every target the set of truth tables under all valuations of the fresh inputs must equal the set of all instantiations of the input function.", "§3 C19"),
+   "Every network of a converter grammar (1..3 variables, implicit functions, shared uninterpreted symbols of arity 0..3 (every argument list with repetitions), explicit expressions, constrained/unconstrained regulations, name-clash sub-family) is run through the convert-aeon-to-bnet binary; for every target the set of truth tables under all valuations of the fresh inputs must equal the set of all instantiations of the input function. Also the operator-shape sub-family (all ordered pairs of binary operators nested to the right / left with negations, chains of 4..33 operands).", "§3 C19"),
 }
 NOT_YET = {
 }
